@@ -21,7 +21,7 @@ CHECKS.update({
     "C11": dict(
         technique="TLA+ spec of the connection life-cycle (spec/ip/IpConn.tla) model-checked by TLC; recorded executions of the real code validated against IpConn_Trace with the set of sockets open on the accessory side compared after every settled step",
         text="TLC checks AtMostOneOpen/AtMostOneHeld/HeldIsCurrent/AfterCloseNothingHeld/StaleLossHarmless exhaustively on IpConn for small constants, with every way a secure-session setup can end, FIN and reset of old and new sockets in every order, and close()/shutdown() from every state. Trace validation binds it to the code: after every settled step the accessory-side set of open sockets must equal the specification's, every EOF seen by the accessory must be explained by a controller close, close()/shutdown() must return normally.",
-        note="Trusted: TLC, harness/vloop.py, harness/simnet.py, harness/refacc. Histories where a trigger races with an unfinished close() are accepted either way (DESIGN.md 4.2).",
+        note="The simulated network is made of AF_UNIX socket pairs: TCP-only error behaviour of the socket layer (shutdown() failing with ENOTCONN after a peer reset) is not reproduced. Trusted: TLC, harness/vloop.py, harness/simnet.py, harness/refacc. Histories where a trigger races with an unfinished close() are accepted either way (DESIGN.md 4.2).",
         ref="5/C11"),
 })
 
